@@ -1,4 +1,354 @@
 import Tfv.Model
+import Tfv.Spec.History
+import Tfv.Proofs.FrameMain
+import Tfv.Proofs.HistoryUse
+import Tfv.Proofs.HistoryExamples
+import Tfv.Proofs.AgreeUse
+/-!
+# C16 — using an operator or type never changes what it means later
+
+"The type inferred for an expression depends only on its text, the supplied inputs and
+the language definition, not on which expressions were parsed or which types were
+applied before: every use of an operator, schema, alias or wildcard gets fresh variables
+and no inference step writes into a definition."
+
+In the model definitions (schemas, operator declarations, the language) are immutable
+data; the only thing threaded between two uses is the inference store. What is proved:
+
+1. **Freshness** (`C16_instantiate_fresh`): instantiating a schema allocates new variables
+   only, leaves every existing variable untouched and returns a term over the new variables.
+2. **Frame** (`C16_unify_frame`, `C16_fix_frame`, `C16_apply_frame`, `C16_definitions_untouched*`):
+   unification, fixing and application write only to variables reachable from their
+   arguments (`Reach`, Spec/History.lean) or freshly allocated; everything else in the
+   store — the variables of every earlier, unrelated expression — is exactly as before.
+3. **History independence** (`C16_history_independent`): one whole use of a definition
+   (instantiate a schema, apply it to concrete arguments) started behind ANY history gives
+   the same error, or the same store and result type up to the shift of variable indices by
+   the size of the history, as started from the empty store.
+   For unification of *arbitrary* terms the statement is false of the model
+   (`C16_history_independent_unify_fails`: the occurs check has fuel `σ.vars.length + 64`,
+   so behind a history it looks deeper); the variants that hold are named `_partial`.
+
+Scope: the constraint-free engine (`NoConstraints`, schemas with `constraints = []`,
+`skip_basic = skip_wildcard = False`), as in C03. No well-formedness of the store is needed.
+Statements only; the proofs are in `Tfv/Proofs/Frame*.lean`, `Tfv/Proofs/History*.lean`
+(namespace `Tfv.C16P`).
+-/
 namespace Tfv.C16
-theorem placeholder : True := trivial
+open Tfv Tfv.C03P Tfv.C16P
+
+/-! ## 1. freshness -/
+
+/-- Instantiating a constraint-free schema only appends `nvars + nwild` new variables to the
+store: (a) every variable of the returned type is new (index at least the old size, below
+the new size), (b) every old variable is exactly as before, and the new size is the old size
+plus `nvars + nwild` — so two instantiations of the same schema never share a variable.
+The returned type is the schema body over the new variables. -/
+theorem C16_instantiate_fresh (L : Lang) (n : Nat) (σ σ' : Store) (s : Schema) (t : Term)
+    (hc : s.constraints = []) (hbody : okTermN L (s.nvars + s.nwild) s.body = true)
+    (h : instantiate L n σ s = .ok (σ', t)) :
+    (∀ v, VarIn v t → σ.vars.length ≤ v ∧ v < σ'.vars.length) ∧
+    (∀ v, v < σ.vars.length → getVar σ' v = getVar σ v) ∧
+    σ'.vars.length = σ.vars.length + s.nvars + s.nwild ∧
+    t = s.body.shift σ.vars.length :=
+  have r := instantiate_fresh hc hbody h
+  ⟨r.2.2.2.1, r.2.2.2.2, r.2.2.1, r.2.1⟩
+
+example : exSch.constraints = [] ∧ okTermN exL (exSch.nvars + exSch.nwild) exSch.body = true ∧
+    instantiate exL 10 hist3 exSch =
+      .ok (hist3.append { vars := [{}], csets := [[]] }, .app FUN [.var 3, .app 7 [.var 3]]) :=
+  ⟨rfl, by decide, exSch_run3⟩
+
+/-- Two instantiations (of the same or of different schemas), the second in any store at
+least as large as the result of the first, never share a variable. -/
+theorem C16_instantiate_twice_disjoint (L : Lang) (n m : Nat) (σ σ1 σ2 σ3 : Store) (s s' : Schema)
+    (t1 t2 : Term) (hc : s.constraints = []) (hbody : okTermN L (s.nvars + s.nwild) s.body = true)
+    (hc' : s'.constraints = []) (hbody' : okTermN L (s'.nvars + s'.nwild) s'.body = true)
+    (h1 : instantiate L n σ s = .ok (σ1, t1)) (hlater : σ1.vars.length ≤ σ2.vars.length)
+    (h2 : instantiate L m σ2 s' = .ok (σ3, t2)) : ∀ v, VarIn v t1 → ¬ VarIn v t2 :=
+  instantiate_disjoint hc hbody hc' hbody' h1 hlater h2
+
+example : instantiate exL 10 {} exSch = .ok ({ vars := [{}], csets := [[]] }, .app FUN [.var 0, .app 7 [.var 0]]) ∧
+    ({ vars := [{}], csets := [[]] } : Store).vars.length ≤ hist3.vars.length ∧
+    instantiate exL 10 hist3 exSch =
+      .ok (hist3.append { vars := [{}], csets := [[]] }, .app FUN [.var 3, .app 7 [.var 3]]) :=
+  ⟨exSch_run0, by decide, exSch_run3⟩
+
+/-! ## 2. frame -/
+
+/-- Subtype unification allocates nothing and changes only variables reachable from its two
+arguments: every other variable of the store is exactly as before. -/
+theorem C16_unify_frame (L : Lang) (n : Nat) (σ σ' : Store) (a b : Term) (nc : NoConstraints σ)
+    (h : unify L n σ a b true false false = .ok σ') :
+    σ'.vars.length = σ.vars.length ∧ NoConstraints σ' ∧
+    ∀ v, ¬ Reach σ a v → ¬ Reach σ b v → getVar σ' v = getVar σ v :=
+  unify_frame nc h
+
+example : NoConstraints σU ∧ unify exL 10 σU (.var 0) (.var 1) true false false = .ok σU' :=
+  ⟨σU_nc, exU_run⟩
+
+/-- `fix` allocates nothing, changes only variables reachable from its argument, and the
+type it returns mentions reachable variables only. -/
+theorem C16_fix_frame (L : Lang) (n : Nat) (σ σ' : Store) (t t' : Term) (pl : Bool) (nc : NoConstraints σ)
+    (h : fix L n σ t pl = .ok (σ', t')) :
+    σ'.vars.length = σ.vars.length ∧ NoConstraints σ' ∧
+    (∀ v, ¬ Reach σ t v → getVar σ' v = getVar σ v) ∧ ∀ v, VarIn v t' → Reach σ t v :=
+  fix_frame nc h
+
+example : NoConstraints σS1 ∧ fix exL 10 σS1 (.var 0) true = .ok (σS1fix, .app 6 []) :=
+  ⟨σS1_nc, exFix_run⟩
+
+/-- Applying a function type to an argument changes only variables reachable from the two
+types; the store may grow (an unresolved function variable becomes `a ** b` with fresh
+`a`, `b`), and the returned type mentions reachable or freshly allocated variables only. -/
+theorem C16_apply_frame (L : Lang) (n : Nat) (σ σ' : Store) (f x r : Term) (fixFlag : Bool)
+    (nc : NoConstraints σ) (h : applyT L n σ f x fixFlag = .ok (σ', r)) :
+    σ.vars.length ≤ σ'.vars.length ∧ NoConstraints σ' ∧
+    (∀ v, v < σ.vars.length → ¬ Reach σ f v → ¬ Reach σ x v → getVar σ' v = getVar σ v) ∧
+    ∀ v, VarIn v r → (Reach σ f v ∨ Reach σ x v) ∨ (σ.vars.length ≤ v ∧ v < σ'.vars.length) :=
+  apply_frame nc h
+
+example : NoConstraints σS ∧
+    applyT exL 10 σS exF (.app 7 [.app 6 []]) true = .ok (σS1, .app FUN [.var 0, .var 0]) :=
+  ⟨σS_nc, exB_step1⟩
+
+/-- An earlier expression `e` that shares no variable with the terms being unified means
+after the unification exactly what it meant before: its variables carry the same records,
+the same variables are reachable from it, and following it gives the same type. -/
+theorem C16_definitions_untouched (L : Lang) (n : Nat) (σ σ' : Store) (a b e : Term) (nc : NoConstraints σ)
+    (h : unify L n σ a b true false false = .ok σ')
+    (hdis : ∀ v, Reach σ e v → ¬ Reach σ a v ∧ ¬ Reach σ b v) :
+    (∀ v, Reach σ e v → getVar σ' v = getVar σ v) ∧ (∀ v, Reach σ' e v ↔ Reach σ e v) ∧
+    ∀ m, follow σ' m e = follow σ m e :=
+  have hg : ∀ v, Reach σ e v → getVar σ' v = getVar σ v :=
+    fun v hv => (unify_frame nc h).2.2 v (hdis v hv).1 (hdis v hv).2
+  ⟨hg, untouched hg⟩
+
+example : NoConstraints σ3 ∧ unify exL 10 σ3 (.var 0) (.var 1) true false false = .ok σ3' ∧
+    (∀ v, Reach σ3 (.var 2) v → ¬ Reach σ3 (.var 0) v ∧ ¬ Reach σ3 (.var 1) v) :=
+  ⟨σ3_nc, ex3_run, ex3_disjoint⟩
+
+/-- The same for an application: an earlier expression over allocated variables that shares
+no variable with the function and argument types is untouched. -/
+theorem C16_definitions_untouched_apply (L : Lang) (n : Nat) (σ σ' : Store) (f x r e : Term)
+    (fixFlag : Bool) (nc : NoConstraints σ) (h : applyT L n σ f x fixFlag = .ok (σ', r))
+    (hdis : ∀ v, Reach σ e v → v < σ.vars.length ∧ ¬ Reach σ f v ∧ ¬ Reach σ x v) :
+    (∀ v, Reach σ e v → getVar σ' v = getVar σ v) ∧ (∀ v, Reach σ' e v ↔ Reach σ e v) ∧
+    ∀ m, follow σ' m e = follow σ m e :=
+  have hg : ∀ v, Reach σ e v → getVar σ' v = getVar σ v :=
+    fun v hv => (apply_frame nc h).2.2.1 v (hdis v hv).1 (hdis v hv).2.1 (hdis v hv).2.2
+  ⟨hg, untouched hg⟩
+
+example : NoConstraints σ4 ∧
+    applyT exL 10 σ4 (.app FUN [.var 0, .var 0]) (.app 6 []) true = .ok (σ4b, .app 6 []) ∧
+    (∀ v, Reach σ4 (.var 1) v →
+      v < σ4.vars.length ∧ ¬ Reach σ4 (.app FUN [.var 0, .var 0]) v ∧ ¬ Reach σ4 (.app 6 []) v) :=
+  ⟨σ4_nc, ex4_run, ex4_disjoint⟩
+
+/-! ## 3. history independence -/
+
+/-- THE MAIN STATEMENT. One use of a definition — instantiate the schema `s`, apply the
+result to the concrete argument types `xs` in turn — started in ANY history store `σ₀`
+gives the same outcome as started in the empty store: the same error, or the history
+followed by the store of the fresh run (all its variable indices shifted by the size `k`
+of the history) and the same result type shifted by `k`. The history is never read and
+never written. -/
+theorem C16_history_independent (L : Lang) (n : Nat) (fixFlag : Bool) (σ₀ : Store) (s : Schema)
+    (xs : List Term) (h0 : NoConstraints σ₀) (hc : s.constraints = [])
+    (hbody : okTermN L (s.nvars + s.nwild) s.body = true) (hxs : Term.closedL xs = true) :
+    useSchema L n fixFlag σ₀ s xs = afterHistory σ₀ (useSchema L n fixFlag {} s xs) :=
+  useSchema_history_empty h0 hc hbody hxs
+
+example : NoConstraints hist3 ∧ exSch.constraints = [] ∧
+    okTermN exL (exSch.nvars + exSch.nwild) exSch.body = true ∧
+    Term.closedL [.app 6 [], .app 7 [.app 5 []]] = true :=
+  ⟨hist3_nc, rfl, by decide, by decide⟩
+
+/-- a successful run: `(x => x ** F(x))` applied to `B` gives `F(x)` with `x := B`; behind the
+history of three variables the same, shifted by three -/
+example : useSchema exL 10 true {} exSch [.app 6 []] = .ok (σS1fix, .app 7 [.var 0]) ∧
+    useSchema exL 10 true hist3 exSch [.app 6 []] = .ok (hist3.append σS1fix, .app 7 [.var 3]) :=
+  ⟨exUse_run0, exUse_run3⟩
+
+/-- The same behind a history, for a use that starts in any scoped store without
+variable-to-variable bindings (not only the empty one): `σ₀.append σ` behaves as `σ`. -/
+theorem C16_history_independent_general (L : Lang) (n : Nat) (fixFlag : Bool) (σ₀ σ : Store) (s : Schema)
+    (xs : List Term) (h0 : NoConstraints σ₀) (nc : NoConstraints σ) (nvv : NoVarVar σ) (hs : Scoped σ)
+    (hc : s.constraints = []) (hbody : okTermN L (s.nvars + s.nwild) s.body = true)
+    (hxs : Term.closedL xs = true) :
+    useSchema L n fixFlag (σ₀.append σ) s xs = afterHistory σ₀ (useSchema L n fixFlag σ s xs) :=
+  useSchema_history h0 nc nvv hs hc hbody hxs
+
+example : NoConstraints hist3 ∧ NoConstraints σ1 ∧ NoVarVar σ1 ∧ Scoped σ1 :=
+  ⟨hist3_nc, σ1_nc, σ1_nvv, σ1_scoped⟩
+
+/-- Instantiating a schema behind a history gives the shifted result of instantiating it
+without. PARTIAL: stated for stores without variable-to-variable bindings (`NoVarVar`). -/
+theorem C16_history_independent_instantiate_partial (L : Lang) (n : Nat) (σ₀ σ : Store) (s : Schema)
+    (h0 : NoConstraints σ₀) (nc : NoConstraints σ) (nvv : NoVarVar σ) (hc : s.constraints = []) :
+    instantiate L n (σ₀.append σ) s = afterHistory σ₀ (instantiate L n σ s) :=
+  instantiate_history h0 nc nvv hc
+
+/-- by evaluation: after a history of three unrelated variables (one of them bound) the
+schema `x ** F(x)` instantiates to the shifted result of instantiating it in `{}` -/
+example : instantiate exL 10 hist3 exSch = afterHistory hist3 (instantiate exL 10 {} exSch) :=
+  exSch_history
+
+/-- `fix` behind a history is the shifted `fix`. PARTIAL: needs `NoVarVar σ`. -/
+theorem C16_history_independent_fix_partial (L : Lang) (n : Nat) (σ₀ σ : Store) (t : Term) (pl : Bool)
+    (h0 : NoConstraints σ₀) (nc : NoConstraints σ) (nvv : NoVarVar σ) :
+    fix L n (σ₀.append σ) (t.shift σ₀.vars.length) pl = afterHistory σ₀ (fix L n σ t pl) :=
+  fix_history h0 nc nvv
+
+example : NoConstraints hist3 ∧ NoConstraints σS1 ∧ NoVarVar σS1 ∧
+    fix exL 10 σS1 (.var 0) true = .ok (σS1fix, .app 6 []) :=
+  ⟨hist3_nc, σS1_nc, σS1_nvv, exFix_run⟩
+
+/-- Subtype unification behind a history is the shifted unification: the same error, or the
+history followed by the shifted resulting store. PARTIAL: one of the two types is concrete
+(what `Type.apply` on a concrete argument does) and the store has no variable-to-variable
+bindings; without these hypotheses the statement is false, see
+`C16_history_independent_unify_fails`. -/
+theorem C16_history_independent_unify_partial (L : Lang) (n : Nat) (σ₀ σ : Store) (a b : Term)
+    (h0 : NoConstraints σ₀) (nc : NoConstraints σ) (nvv : NoVarVar σ)
+    (hcl : a.closed = true ∨ b.closed = true) :
+    unify L n (σ₀.append σ) (a.shift σ₀.vars.length) (b.shift σ₀.vars.length) true false false =
+      (unify L n σ a b true false false).map (σ₀.append ·) :=
+  unify_history h0 nc nvv hcl
+
+example : NoConstraints hist3 ∧ NoConstraints σS ∧ NoVarVar σS ∧
+    ((Term.app 7 [.app 6 []]).closed = true ∨ (Term.app 7 [.var 0]).closed = true) :=
+  ⟨hist3_nc, σS_nc, σS_nvv, Or.inl (by decide)⟩
+
+/-- Applying a type over allocated variables to a concrete argument behind a history is the
+shifted application. PARTIAL: concrete argument, scoped store without variable-to-variable
+bindings. -/
+theorem C16_history_independent_apply_partial (L : Lang) (n : Nat) (σ₀ σ : Store) (f x : Term)
+    (fixFlag : Bool) (h0 : NoConstraints σ₀) (nc : NoConstraints σ) (nvv : NoVarVar σ) (hs : Scoped σ)
+    (hf : ∀ v, VarIn v f → v < σ.vars.length) (hx : x.closed = true) :
+    applyT L n (σ₀.append σ) (f.shift σ₀.vars.length) x fixFlag =
+      afterHistory σ₀ (applyT L n σ f x fixFlag) :=
+  applyT_history h0 nc nvv hs hf hx
+
+example : NoConstraints hist3 ∧ NoConstraints σS ∧ NoVarVar σS ∧ Scoped σS ∧
+    (∀ v, VarIn v exF → v < σS.vars.length) ∧ (Term.app 7 [.app 6 []]).closed = true :=
+  ⟨hist3_nc, σS_nc, σS_nvv, σS_scoped, exF_scoped, by decide⟩
+
+/-- FINDING: for arbitrary terms unification is NOT history independent in the model, even on
+well-formed input. The occurs check recurses with fuel `σ.vars.length + 64`; on `x0` against
+`F(F(…F(x0)…))` (65 levels) in a store with one variable it runs out of fuel and the cyclic
+binding is accepted, while behind a history of one variable it has one more unit of fuel,
+finds `x0` and reports `recursiveType`. -/
+theorem C16_history_independent_unify_fails :
+    ¬ (∀ (L : Lang) (n : Nat) (σ₀ σ : Store) (a b : Term), WF L → NoConstraints σ₀ → NoConstraints σ →
+        NoVarVar σ → OkStore L σ → okTerm L σ a = true → okTerm L σ b = true →
+        unify L n (σ₀.append σ) (a.shift σ₀.vars.length) (b.shift σ₀.vars.length) true false false =
+          (unify L n σ a b true false false).map (σ₀.append ·)) :=
+  unify_history_counterexample
+
+/-- Following a term behind a history gives the shifted result. PARTIAL: the fuel of
+`followT` (`σ.vars.length + 1`) must suffice in `σ` itself (`FuelOk`, true unless the store
+has a cycle of variable-to-variable bindings, which the engine never creates). -/
+theorem C16_followT_history_partial (σ₀ σ : Store) (t : Term) (hf : FuelOk σ) :
+    followT (σ₀.append σ) (t.shift σ₀.vars.length) = (followT σ t).shift σ₀.vars.length :=
+  followT_append hf t
+
+example : FuelOk σ1 := σ1_fuelOk
+
+/-- FINDING: on a store with a cycle `x0 := x1`, `x1 := x0` the result of `followT` depends on
+its fuel and therefore on the size of the history. -/
+theorem C16_followT_history_fails :
+    followT (σ1.append σcyc) ((Term.var 0).shift σ1.vars.length) ≠
+      (followT σcyc (.var 0)).shift σ1.vars.length ∧ ¬ FuelOk σcyc :=
+  ⟨followT_history_counterexample, σcyc_not_fuelOk⟩
+
+/-- Reading a variable behind a history: the history's own variables are as in the history,
+the others are the shifted records of `σ`; `σ₀.append {} = σ₀`. -/
+theorem C16_getVar_append (σ₀ σ : Store) :
+    (∀ v, v < σ₀.vars.length → getVar (σ₀.append σ) v = getVar σ₀ v) ∧
+    (∀ v, v < σ.vars.length →
+      getVar (σ₀.append σ) (v + σ₀.vars.length) = (getVar σ v).shift σ₀.vars.length σ₀.csets.length) ∧
+    (σ₀.append σ).vars.length = σ₀.vars.length + σ.vars.length ∧
+    (NoConstraints σ₀ → σ₀.append {} = σ₀) :=
+  ⟨fun _ h => getVar_append_lt h, fun _ h => getVar_append_ge h, length_append σ₀ σ, append_empty⟩
+
+/-! ## 4. the engine reads only what it can reach; the content of the history is irrelevant -/
+
+/-- Unification READS only variables reachable from its arguments: run in two stores of the
+same size that agree on the reachable variables — and differ arbitrarily elsewhere — it gives
+the same error, or stores that again agree on these variables. (With `C16_unify_frame`: what
+is not reachable is neither read nor written.) No hypothesis on the terms. -/
+theorem C16_unify_reads_only_reachable (L : Lang) (n : Nat) (τ τ' : Store) (a b : Term)
+    (nc : NoConstraints τ) (nc' : NoConstraints τ')
+    (h : SameOn (fun v => Reach τ a v ∨ Reach τ b v) τ τ') :
+    SameResult (fun v => Reach τ a v ∨ Reach τ b v) (unify L n τ a b true false false)
+      (unify L n τ' a b true false false) :=
+  unify_unread nc nc' h
+
+example : NoConstraints σ3 ∧ NoConstraints σ3alt ∧
+    SameOn (fun v => Reach σ3 (.var 0) v ∨ Reach σ3 (.var 1) v) σ3 σ3alt :=
+  ⟨σ3_nc, σ3alt_nc, σ3alt_same⟩
+
+/-- `fix` reads only variables reachable from its argument. -/
+theorem C16_fix_reads_only_reachable (L : Lang) (n : Nat) (τ τ' : Store) (t : Term) (pl : Bool)
+    (nc : NoConstraints τ) (nc' : NoConstraints τ') (h : SameOn (Reach τ t) τ τ') :
+    SameOutcome (Reach τ t) (fix L n τ t pl) (fix L n τ' t pl) :=
+  fix_unread nc nc' h
+
+example : NoConstraints σ3 ∧ NoConstraints σ3alt ∧ SameOn (Reach σ3 (.var 0)) σ3 σ3alt :=
+  ⟨σ3_nc, σ3alt_nc, σ3alt_same0⟩
+
+/-- Application reads only variables reachable from the function and argument types: in two
+stores that agree on them it gives the same error, or the same result type and stores that
+agree on them and on everything allocated since. -/
+theorem C16_apply_reads_only_reachable (L : Lang) (n : Nat) (τ τ' : Store) (f x : Term) (fixFlag : Bool)
+    (nc : NoConstraints τ) (nc' : NoConstraints τ')
+    (h : SameOn (fun v => Reach τ f v ∨ Reach τ x v) τ τ') :
+    SameOutcome (fun v => (Reach τ f v ∨ Reach τ x v) ∨ τ.vars.length ≤ v)
+      (applyT L n τ f x fixFlag) (applyT L n τ' f x fixFlag) :=
+  applyT_unread nc nc' h
+
+example : NoConstraints σ3 ∧ NoConstraints σ3alt ∧
+    SameOn (fun v => Reach σ3 (.var 0) v ∨ Reach σ3 (.var 1) v) σ3 σ3alt :=
+  ⟨σ3_nc, σ3alt_nc, σ3alt_same⟩
+
+/-- History independence for ARBITRARY terms, up to the size of the history: unification
+behind two histories `σ₀`, `σ₀'` with the same number of variables gives the same error, or
+stores that coincide beyond the history, and leaves each history exactly as it was. What the
+earlier expressions were is irrelevant; only how many variables they allocated enters (as a
+renaming of the new variables and, through the fuel, see `C16_history_independent_unify_fails`). -/
+theorem C16_history_content_irrelevant_unify (L : Lang) (n : Nat) (σ₀ σ₀' σ : Store) (a b : Term)
+    (h0 : NoConstraints σ₀) (h0' : NoConstraints σ₀') (nc : NoConstraints σ)
+    (hv : σ₀'.vars.length = σ₀.vars.length) (hcs : σ₀'.csets.length = σ₀.csets.length) :
+    SameResult (fun v => σ₀.vars.length ≤ v)
+      (unify L n (σ₀.append σ) (a.shift σ₀.vars.length) (b.shift σ₀.vars.length) true false false)
+      (unify L n (σ₀'.append σ) (a.shift σ₀.vars.length) (b.shift σ₀.vars.length) true false false) ∧
+    (∀ τ1, unify L n (σ₀.append σ) (a.shift σ₀.vars.length) (b.shift σ₀.vars.length) true false false
+        = .ok τ1 → ∀ v, v < σ₀.vars.length → getVar τ1 v = getVar σ₀ v) :=
+  ⟨unify_content h0 h0' nc hv hcs, fun _ h => unify_history_untouched h0 nc h⟩
+
+example : NoConstraints hist3 ∧ NoConstraints hist3' ∧ NoConstraints σU ∧
+    hist3'.vars.length = hist3.vars.length ∧ hist3'.csets.length = hist3.csets.length :=
+  ⟨hist3_nc, hist3'_nc, σU_nc, rfl, rfl⟩
+
+/-- History independence of one whole use with ARBITRARY (also schematic) argument types, up
+to the size of the history: behind two histories with the same number of variables the use
+gives the same error, or the same result type and stores that coincide beyond the history;
+the history itself is left exactly as it was. -/
+theorem C16_history_content_irrelevant (L : Lang) (n : Nat) (fixFlag : Bool) (σ₀ σ₀' σ : Store)
+    (s : Schema) (xs : List Term) (h0 : NoConstraints σ₀) (h0' : NoConstraints σ₀') (nc : NoConstraints σ)
+    (hv : σ₀'.vars.length = σ₀.vars.length) (hcs : σ₀'.csets.length = σ₀.csets.length)
+    (hc : s.constraints = []) (hbody : okTermN L (s.nvars + s.nwild) s.body = true) :
+    SameOutcome (fun v => σ₀.vars.length ≤ v)
+      (useSchema L n fixFlag (σ₀.append σ) s (Term.shiftL σ₀.vars.length xs))
+      (useSchema L n fixFlag (σ₀'.append σ) s (Term.shiftL σ₀.vars.length xs)) ∧
+    (∀ τ1 r, useSchema L n fixFlag (σ₀.append σ) s (Term.shiftL σ₀.vars.length xs) = .ok (τ1, r) →
+      ∀ v, v < σ₀.vars.length → getVar τ1 v = getVar σ₀ v) :=
+  ⟨useSchema_content h0 h0' nc hv hcs hc hbody, fun _ _ h => useSchema_history_untouched h0 nc hc hbody h⟩
+
+example : NoConstraints hist3 ∧ NoConstraints hist3' ∧ NoConstraints σU ∧
+    hist3'.vars.length = hist3.vars.length ∧ hist3'.csets.length = hist3.csets.length ∧
+    exSch.constraints = [] ∧ okTermN exL (exSch.nvars + exSch.nwild) exSch.body = true :=
+  ⟨hist3_nc, hist3'_nc, σU_nc, rfl, rfl, rfl, by decide⟩
+
 end Tfv.C16
